@@ -5,8 +5,10 @@ import (
 	"fmt"
 	"os"
 	"os/exec"
+	"sort"
 	"strconv"
 	"strings"
+	"sync"
 
 	"verifsim/engine"
 )
@@ -18,34 +20,57 @@ func selftestMain(args []string) int {
 		usage()
 	}
 	fs := flag.NewFlagSet("selftest", flag.ExitOnError)
-	runs := fs.Int("runs", 64, "runs per process")
+	runs := fs.Int("runs", 12, "runs per profile and process")
 	child := fs.Bool("child", false, "internal")
 	seed := fs.Uint64("seed", 1, "seed")
 	fs.Parse(args[1:])
 	if *child {
-		p := engine.DefaultProfile()
-		for i := 0; i < *runs; i++ {
-			r := engine.RunOne(p, *seed, i, engine.Options{})
-			v := "-"
-			if r.Violation != nil {
-				v = r.Violation.Sig
+		// every registered profile (both engines), in name order
+		profs := engine.Profiles()
+		names := make([]string, 0, len(profs))
+		for name := range profs {
+			names = append(names, name)
+		}
+		sort.Strings(names)
+		for _, name := range names {
+			for i := 0; i < *runs; i++ {
+				r := engine.RunOne(profs[name], *seed, i, engine.Options{})
+				v := "-"
+				if r.Violation != nil {
+					v = r.Violation.Sig
+				}
+				fmt.Printf("%s %d %s %d %s\n", name, i, r.Digest, len(r.Trace), v)
 			}
-			fmt.Printf("%d %s %d %s\n", i, r.Digest, len(r.Trace), v)
 		}
 		return 0
 	}
 	self, _ := os.Executable()
+	procsList := []int{1, 4, 16, 1, 2, 16, 8, 3}
+	outs := make([]string, len(procsList))
+	errs := make([]error, len(procsList))
+	var wg sync.WaitGroup
+	for j, procs := range procsList {
+		wg.Add(1)
+		go func(j, procs int) {
+			defer wg.Done()
+			cmd := exec.Command(self, "selftest", "determinism", "--child", "--runs", strconv.Itoa(*runs), "--seed", strconv.FormatUint(*seed, 10))
+			cmd.Env = append(os.Environ(), "GOMAXPROCS="+strconv.Itoa(procs))
+			out, err := cmd.Output()
+			outs[j], errs[j] = string(out), err
+		}(j, procs)
+	}
+	wg.Wait()
 	var ref string
-	for _, procs := range []int{1, 4, 16, 1, 4, 16} {
-		cmd := exec.Command(self, "selftest", "determinism", "--child", "--runs", strconv.Itoa(*runs), "--seed", strconv.FormatUint(*seed, 10))
-		cmd.Env = append(os.Environ(), "GOMAXPROCS="+strconv.Itoa(procs))
-		out, err := cmd.Output()
+	nlines := 0
+	for j, procs := range procsList {
+		out, err := outs[j], errs[j]
 		if err != nil {
 			fmt.Fprintf(os.Stderr, "child failed: %v\n", err)
 			return 2
 		}
 		if ref == "" {
 			ref = string(out)
+			nlines = strings.Count(ref, "\n")
 			continue
 		}
 		if string(out) != ref {
@@ -59,6 +84,6 @@ func selftestMain(args []string) int {
 			return 2
 		}
 	}
-	fmt.Printf("determinism self-test passed: %d runs x 6 processes (GOMAXPROCS 1/4/16) identical\n", *runs)
+	fmt.Printf("determinism self-test passed: %d runs (%d per profile, every profile of both engines) x %d fresh processes (GOMAXPROCS 1/2/3/4/8/16) identical\n", nlines, *runs, len(procsList))
 	return 0
 }
